@@ -121,8 +121,16 @@ func GenShapeZoo(idx int) *ir.Request {
 		{Name: "id", Number: 1, Kind: "string", Rules: &ir.Rules{Required: true}},
 		{Name: "billing", Number: 2, Kind: "message", TypeName: P + "LeafZ", Ann: ir.Ann{Flatten: &tr, FlattenPrefix: sp("billing_")}, Rules: &ir.Rules{Required: true}},
 		{Name: "depot", Number: 3, Kind: "message", TypeName: P + "LeafZ", Rules: &ir.Rules{Required: true}},
+		// `required` on a proto3 optional scalar means "must be set": the empty string / zero is a legal set value
+		{Name: "body", Number: 4, Kind: "string", Card: "optional", Rules: &ir.Rules{Required: true}},
+		{Name: "rank", Number: 5, Kind: "int32", Card: "optional", Rules: &ir.Rules{Required: true}},
 	}}
-	f.Messages = []*ir.Message{leaf, stamps, textV, imageV, gone, emptyZ, mkEvent("OneofFlatZ", true), mkEvent("OneofNestedZ", false), find, del, nick, flatNull, alias, aliasPut, barZ, pageZ, quotesZ,
+	// an enum that is ONLY ever a map value (no singular / repeated / optional field of it anywhere)
+	f.Enums = append(f.Enums, &ir.Enum{Name: "SwatchZ", Values: []ir.EnumValue{{Name: "SWATCH_Z_UNSPECIFIED", Number: 0}, {Name: "SWATCH_Z_MATTE", Number: 1}, {Name: "SWATCH_Z_GLOSS", Number: 2}}})
+	enumMap := &ir.Message{Name: "PlainEnumMapZ", Fields: []*ir.Field{
+		{Name: "swatches", Number: 1, Kind: "enum", TypeName: P + "SwatchZ", Card: "map", MapKey: "string"},
+		{Name: "title", Number: 2, Kind: "string"}}}
+	f.Messages = []*ir.Message{enumMap, leaf, stamps, textV, imageV, gone, emptyZ, mkEvent("OneofFlatZ", true), mkEvent("OneofNestedZ", false), find, del, nick, flatNull, alias, aliasPut, barZ, pageZ, quotesZ,
 		mkTwo("OneofTwoFlatFirstZ", true), mkTwo("OneofTwoNestedFirstZ", false), flatReq}
 	f.Services = []*ir.Service{{Name: "Zoo", BasePath: "/zoo", Methods: []*ir.Method{
 		{Name: "PutStamps", Input: P + "PlainStamps", Output: P + "PlainStamps", Config: &ir.HTTPConfig{Path: "/stamps", Method: "POST"}},
@@ -136,6 +144,9 @@ func GenShapeZoo(idx int) *ir.Request {
 		{Name: "PutAlias", Input: P + "AliasPut", Output: P + "AliasPut", Config: &ir.HTTPConfig{Path: "/alias/{user_id}", Method: "PUT"}},
 		{Name: "PutQuotes", Input: P + "QuotesZ", Output: P + "QuotesZ", Config: &ir.HTTPConfig{Path: "/quotes", Method: "POST"}},
 		{Name: "PutFlatRequired", Input: P + "FlattenRequiredZ", Output: P + "FlattenRequiredZ", Config: &ir.HTTPConfig{Path: "/flat-required", Method: "POST"}},
+		// a NON-root unwrap wrapper (the unwrap list plus another field) returned by an RPC directly: its JSON is the plain object
+		{Name: "PutBarsPage", Input: P + "BarsPageZ", Output: P + "BarsPageZ", Config: &ir.HTTPConfig{Path: "/bars-page", Method: "POST"}},
+		{Name: "PutEnumMap", Input: P + "PlainEnumMapZ", Output: P + "PlainEnumMapZ", Config: &ir.HTTPConfig{Path: "/enum-map", Method: "POST"}},
 		{Name: "PutTwoA", Input: P + "OneofTwoFlatFirstZ", Output: P + "OneofTwoFlatFirstZ", Config: &ir.HTTPConfig{Path: "/two-a", Method: "POST"}},
 		{Name: "PutTwoB", Input: P + "OneofTwoNestedFirstZ", Output: P + "OneofTwoNestedFirstZ", Config: &ir.HTTPConfig{Path: "/two-b", Method: "POST"}},
 	}}}
